@@ -135,6 +135,38 @@ PROPS["C01"] = {
     "level_text": "Guarantee G of the assume-guarantee argument: one real instance against an environment that itself obeys G; the store stub logs every mutation with caller, expected revision, outcome and previous owner, and the audit is evaluated on every explored path of the listed families.",
     "level_note": "Relative to the reference store; bounded families; reductions R1/R2.",
 }
+PROPS["C05"] = {
+    "groups": [{"run": "^vpH_C05_T_|^vpH_C08_T_causes$|^vpH_C01_T_preempted$|^vpH_C07_T_leftover$"}],
+    "bounds": {"quick": "three terms of one takeover-enabled instance (preemption of a lower-priority owner; Create after being preempted, with the preemptor leaving either after 1.5 heartbeats or within the same heartbeat interval; restart), plus the C08 family (two terms, every cause of term end), the C01 preemption family and the C07 vacancy family; over the store's complete version log: the token of every acquisition by the instance never appeared before, every refresh repeats the token and identity of the version it replaces; the OnPromote argument and Token()/Status().Token at quiescent points equal the record's token"},
+    "outside": "uniqueness across instances rests on the UUID assumption (uuid.New() modelled as pairwise distinct fresh strings); more than three terms",
+    "assumptions": ["uuid.New().String() returns a value distinct from every earlier one"],
+    "level_text": "Every explored path of the listed scenario families ends with an audit of the complete record history kept by the reference store, so token freshness and constancy are checked on every version ever written, for every schedule in the bound.",
+    "level_note": "UUID uniqueness assumed; bounded families; reductions R1/R2.",
+}
+PROPS["C18"] = {
+    "groups": [{"run": "^vpH_C18_T_|^vpH_C08_T_|^vpH_C09_T_stop_(leader|slow_create|twice)$"}],
+    "bounds": {"quick": "Status() is evaluated at every quiescent point of the C08 family (every cause of term end, two terms, recording Metrics) and after the return of every stop of the C09 stop-of-a-leader / slow-Create / repeated-stop scenarios: IsLeader <=> State == LEADER, State in the documented set, a leader's LeaderID / Token / Revision equal its id, its term token and the revision of its latest successful write in the store, STOPPED with IsLeader false after a stop, last SetIsLeader value == IsLeader(), IncTransitions calls form a chain starting at CANDIDATE; follower harness: LeaderID converges to the id in the live record across a change of owner, with watch events delivered or lost"},
+    "outside": "snapshots taken in the middle of a transition (Status() holds the read lock; torn reads of several atomics by lock-free readers are not explored, reduction R1)",
+    "assumptions": [],
+    "level_text": "The real Status(), metrics calls and state transitions run inside the explored scenario families; consistency of each snapshot and of the recorded metric stream is asserted at every quiescent point of every path.",
+    "level_note": "Quiescent-point snapshots only; bounded families; reductions R1/R2.",
+}
+PROPS["C06"] = {
+    "groups": [{"run": "^vpH_C06_T_"}],
+    "bounds": {"quick": "one real follower (watcher, 500ms periodic check, acquisition rounds with symbolic jitter and backoff draws) next to a live foreign record; no watch notification of the vacancy is ever delivered; vacancy by deletion at a symbolic instant in [0,900ms] or by silent expiry (crash of the owner); store latency zero: leader by vacancy + 600ms. No-give-up: Watch() fails once or twice, or the watch channel is closed by the server after the initial value; 2s later (faults over) a vacancy occurs without notification: leader within 1.1s"},
+    "outside": "unbounded liveness is replaced by the explicit bounds; several competing real candidates (the bound is per healthy candidate; competitors are environment); store latencies above zero (they add to the bound)",
+    "assumptions": [],
+    "level_text": "The follower-side code runs under a symbolic clock: the vacancy instant and every jitter/backoff draw are solver variables, and the deadline 'leader by vacancy + 500ms + 100ms' is a linear-arithmetic obligation decided on every path; permanence of the periodic check after transient Watch failures is checked by a later vacancy.",
+    "level_note": "One real candidate; reductions R1/R2; bounded windows.",
+}
+PROPS["C11"] = {
+    "groups": [{"run": "^vpH_C11_T_", "args": ["-timeout-ms", "30000"]}],
+    "bounds": {"quick": "a leader built with a provider exposing an (unconnected) *nats.Conn: the real natsConnectionMonitor and disconnectHandler are wired and notifications are injected through the handlers the monitor registered on the Conn, one at a time; 1-3 notifications (disconnect first, then disconnect/reconnect: flapping) at symbolic gaps in [0,3s]; grace period default (max(3H,5s)) or symbolic in [2H,4H], H=10s; store healthy. Reconnect verification: record untouched / another owner / later incarnation with the same id / arbitrary bytes during an outage of symbolic length below one heartbeat. Stop/StopWithContext placed at every point of a disconnect -> grace-expiry sequence, including inside the expiry handler (the Logger passed in the configuration is a scheduling point for two log lines)"},
+    "outside": "more than three notifications; Closed notifications; store partitions during the outage (then the heartbeat path demotes first: C03); concurrent dispatch of notifications (nats.go dispatches connection callbacks from one goroutine: assumption)",
+    "assumptions": ["connection callbacks are dispatched one at a time", "the three nats.Conn.Set*Handler methods are interpreted from their own SSA on a zero nats.Conn"],
+    "level_text": "The real monitor, disconnect handler, reconnect verification and stop code run symbolically with notification instants and the grace period as solver variables: 'never demoted by the grace mechanism before lastDisconnect+G' and 'demoted exactly then' are linear-arithmetic obligations checked at the flag change itself; deadlocks (self-lock, lock-order cycles that the explored schedules hit) and crashes are executor events.",
+    "level_note": "Bounded notification sequences; reductions R1/R2 with the Logger as an additional switch point inside the handlers' critical sections.",
+}
 PROPS["S00"] = {"groups": [{"run": "^vpH_S00_"}], "level_text": "engine smoke test", "level_note": ""}
 
 NOT_APPLICABLE = {}
